@@ -5,7 +5,7 @@ use super::facts::facts;
 use super::{Cx, Report};
 use crate::log::*;
 use crate::prog::{Op, PStep};
-use crate::vexec::UNIT;
+use crate::rt::UNIT_NS as UNIT;
 
 const P: &str = "C11";
 
